@@ -21,6 +21,7 @@ props/C11.v are about the same functions on R, tied by theory/DistTransfer.v).
    clause; else the mirror differs without a property-violating input (found=False).
 """
 from fractions import Fraction as F
+import math
 import os
 import time
 from concurrent.futures import ThreadPoolExecutor
@@ -183,7 +184,17 @@ def gen_dist(rng, kind=None, nmax=5, p_empty=0.0, pool=None):
                 sc[j] = top - (F(rng.randint(0, 2), 4) if j in big[1:] else 0) if j in big \
                     else sc[0] + F(rng.randint(0, 40), 4)
         spec["weights"] = [str(x) for x in sc]
-        if distinct and n >= 2 and rng.random() < .12:            # -inf scores (accepted by the constructor)
+        if rng.random() < .3:
+            # scores in an EXACT numeric type (Python int / fractions.Fraction): `s - max` is then exact whatever
+            # the common offset, so shift invariance must hold far beyond float64's integer range too
+            big_off = rng.choice([0, 7, -1000, 10**6, -10**9, 2**53, 2**53 + 1, -2**53, 2**60, -10**20, 2**70 + 3])
+            if rng.random() < .6:
+                spec["num"] = "int"
+                spec["weights"] = [str(rng.randint(-6, 6) + big_off) for _ in range(n)]
+            else:
+                spec["num"] = "fraction"
+                spec["weights"] = [str(F(rng.randint(-24, 24), rng.choice([1, 3, 4, 7])) + big_off) for _ in range(n)]
+        elif distinct and n >= 2 and rng.random() < .12:          # -inf scores (accepted by the constructor)
             for j in rng.sample(range(n), rng.randint(1, n - 1)):
                 spec["weights"][j] = "-inf"
     if kind in ("dict", "pairs", "table") and n and all(F(w).denominator == 1 for w in spec["weights"]) \
@@ -287,6 +298,7 @@ def gen_case(rng):
             shadow.pop("num", None)
         elif d1["kind"] == "softmax":
             shadow["weights"] = [str(F(rng.randint(-8, 8), 4)) for _ in d1["events"]]
+            shadow.pop("num", None)
     # scripted draws
     script = []
     n1 = len(d1["events"])
@@ -563,7 +575,7 @@ Ltac sm m :=
   rewrite (softmax_prob_at Nat.eqb nat_eqb_spec m)
     by (cbv [of_pairs fold_left dset dupd Nat.eqb fst snd]; discriminate);
   cbv [of_pairs fold_left dset dupd dget Nat.eqb fst snd map Rsum fold_right];
-  interval with (i_prec 90).
+  interval with (i_prec 170).
 """
 
 
@@ -705,7 +717,8 @@ def run(ctx):
            "falsy_event_dists": 0, "det_on_falsy_event": 0, "shadow_object_first": 0, "default_real_function": 0,
            "int_scalars": 0, "seed_zero": 0, "and_with_zero_probability_entry": 0, "condition_all_rejected": 0,
            "uniform_str_support_nonmember_probes": 0, "uniform_str_support_nonmember_anomalies": 0,
-           "model_skipped_subnormal_floats": 0}
+           "model_skipped_subnormal_floats": 0, "softmax_exact_typed_scores": 0,
+           "softmax_exact_scores_beyond_float_integer_range": 0}
     reps = {}
     FALSY = {ID[v] for v in UNIVERSE if not v}
 
@@ -733,6 +746,7 @@ def run(ctx):
     kinds_count = {k: 0 for k in KINDS}
     pair_count = {}
     terms, meta, sm_jobs = [], [], []
+    sm_info = {}
     draws_of = {}
 
     def viol(sig, i, extra, found):
@@ -749,8 +763,14 @@ def run(ctx):
             cnt["softmax_neg_inf_scores"] += 1
         if probs:
             viol("C11:softmax:" + probs[0].split(":")[0][:60], i, {"which": nm, "spec": sp, "problems": probs, "items": items}, True)
+        if sp.get("num") in ("int", "fraction"):
+            cnt["softmax_exact_typed_scores"] += 1
+            if any(abs(x) >= 2**53 for x in fin):
+                cnt["softmax_exact_scores_beyond_float_integer_range"] += 1
         if goals:
-            sm_jobs.append(((i, nm), goals))
+            label = (i, nm, len(sm_jobs))
+            sm_info[label] = (sp, items)
+            sm_jobs.append((label, goals))
 
     for i, (case, res) in enumerate(zip(cases, impl)):
         if "error" in res:
@@ -833,10 +853,24 @@ def run(ctx):
         sm_failed, ngoals = fut_sm.result()
         timing["model_and_interval_s"] = round(time.time() - t0 - timing["impl_s"], 1)
     cnt["softmax_goals"] = ngoals
-    for (i, nm) in sorted(sm_failed):
-        sp = cases[i][nm] if nm != "kern" else None
-        viol("C11:softmax:interval-proof-fails", i,
-             {"which": nm, "what": "Coq `interval` could not bound |prob (softmax scores) e - msdm float| by 1e-13"}, False)
+    for label in sorted(sm_failed):
+        i, nm = label[0], label[1]
+        sp, items = sm_info[label]
+        # exhibit the failing clause independently: exp(s - max) with the difference taken exactly
+        fin = {}
+        for e_, w_ in zip(spec_ids(sp), sp["weights"]):
+            if w_ != "-inf":
+                fin[e_] = F(w_)
+        top = max(fin.values())
+        wts = {e_: math.exp(float(x - top)) for e_, x in fin.items()}
+        z = sum(wts.values())
+        worst = max((abs(float(vlib.frac(p)) - wts.get(eid(e), 0.0) / z) for e, p in items if not isinstance(p, str)), default=0.0)
+        detail = {"which": nm, "spec": sp, "items": items, "max_abs_deviation_from_exp(s-max)/Z": worst,
+                  "what": "Coq `interval` could not bound |prob (softmax scores) e - msdm float| by 1e-13"}
+        if worst > 1e-9:
+            viol("C11:softmax:probabilities are not exp(s - max)/Z (shift invariance broken)", i, detail, True)
+        else:
+            viol("C11:softmax:interval-proof-fails", i, detail, False)
 
     distinct = set()
     nops = 0
@@ -1090,7 +1124,7 @@ def run(ctx):
                 "from the kinds dict / from_pairs / uniform / deterministic / softmax / table (direct or ProbabilityTable row), 1..5 entries "
                 "over a universe of %d Python values forming %d events (1 == 1.0 == True, (0,1) == (False,1.0), frozensets, tuples, None, str), "
                 "colliding keys on purpose, weights dyadic with zero entries, normalised / NEARLY normalised (total 1 +- 2^-17..2^-20, 1e-6, 8e-6) / unnormalised / (rarely) zero mass, "
-                "softmax scores with offsets, ties, spreads 100/700/709/800/1500 with the largest score not first, -inf scores, likelihoods "
+                "softmax scores with offsets, ties, spreads 100/700/709/800/1500 with the largest score not first, -inf scores, scores as Python int / Fraction with common offsets up to 2^70 / -1e20, likelihoods "
                 "numeric with zeros or boolean, scripted draws incl. u = 0, 1-2^-53 and exact cumulative boundaries, 6 seeded draws; "
                 "distinct = structural hash of (d1, d2, functions); non-trivial = every generated case (>= 1 entry, all operations run)" % (len(UNIVERSE), NID),
         "samples": [{"case": {k: v for k, v in cases[0].items() if k != "universe"}, "impl": impl[0]}] if cases else [],
